@@ -19,6 +19,14 @@ CHECKS = {
   technique="TLA+ spec (Streaming.tla) with flush and compaction interleaved at store-call granularity and tombstone GC, model-checked with TLC; TLC-enumerated interleavings (495 schedules) gate the real Compactor and the real flush on a scripted ObjectStore; traces validated by TLC (StreamTrace.tla)",
   text="design level: RecoveryStable and ManifestSound for the ideal protocol under every interleaving, and counterexamples for blind manifest overwrite, latest-wins compaction and GC ignoring uncompacted segments; implementation level: sequential compaction workloads with faults, tombstone-GC layouts with a segment above the size target, and all interleavings of the 4 flush calls with the 8 compaction calls are executed on the real code with a real recovery after every mutating call",
   note="tombstone age in the code's own reading (Lamport time vs now - ttl under the harness clock); the two open findings are reported as KNOWN-FINDING"),
+ "C06": dict(
+  technique="TLA+ spec (Replication.tla: executor + CRDT state + clock per node, reordering/duplicating/delaying network, anti-entropy) model-checked with TLC; TLC-exported step sequences replayed on real ReplicatedShardActors with the harness as network; traces validated by TLC (ReplTrace.tla)",
+  text="design level: ServedIsState at every step and Converged at quiescence on 3 nodes for register and hash command sets; each repaired defect and the open type-change finding are reproduced by an as-built switch; implementation level: every exported configuration and thousands of random runs (2-4 nodes, all listed commands, duplicates, delays, anti-entropy) are replayed on the real actors and TLC compares replication state and served value of EVERY node after EVERY step, and agreement whenever nothing is in flight",
+  note="one key, full replication; TTL replies not compared (expiry compared in the replication state); INCR/APPEND local outcome taken from the log"),
+ "C08": dict(
+  technique="TLA+ spec (NodeClock.tla) model-checked with TLC over writes/remote deltas/checkpoints/crash/recovery; exported lives replayed on a real ReplicatedShardedState; traces validated by TLC (NodeClockTrace.tla)",
+  text="design level: StampAboveSeen, NeverRepeats, NewestWins, ClockDominates over all interleavings of local writes, remote stamps, checkpoints and up to 2 crashes, with the as-built counterexample; implementation level: every exported life and thousands of random ones run on a real node (16 shard actors, snapshot_state/apply_recovered_state as restart) and TLC checks every issued stamp against everything the running node has observed for the key",
+  note="durability of acknowledged writes assumed (C09/C12); stamps compared per key because the code has one clock per shard"),
  "C07": dict(
   technique="TLA+ spec (Crdt.tla) model-checked with TLC; TLC-exported operation sequences replayed on the real ShardReplicaState/ReplicatedValue; recorded traces validated by TLC (CrdtTrace.tla)",
   text="TLC checks the three laws, in the observable projection, on every configuration of 3 replicas of one key reachable within the step bound; one operation sequence per distinct configuration is replayed on the real code and TLC validates every step (refinement of Merge) and the laws on the results of the real merge for all pairs and triples; random longer runs over all six CRDT kinds are validated the same way",
